@@ -211,4 +211,67 @@ def k3(ctx, kr):
     kr.exhaustive = True
     kr.outside = ['more than %d declarations; StructureInitialization / late-bound alias declarations' % (3 if ctx.tier == 'thorough' else 2)]
 
-KERNELS = [k1, k3]
+
+# ---------------------------------------------------------------------------------------------- K4 two declarations with one name are diagnosed by resolve_types
+def _k4_job(job):
+    kinds, = job
+    ctx = _CTX; part = Part()
+    P = ctx.program()
+    K = len(kinds)
+    lib0, text = TC.build(ctx, [_decl_text(kinds, ['nm%d' % i for i in range(K)])])
+    key = P.find_fn('ironplc-analyzer', 'stages::resolve_types')
+    M = Machine(P, max_steps=100_000_000); M.toposort_deterministic = True
+    sym = {}; ALPHA = ['a', 'b']
+    def entry(M):
+        lib = deep_clone(lib0)
+        ids = {n: models.str_term(M, Str(n)) for n in ALPHA}
+        mapping = {}
+        for i in range(K):
+            v = M.fresh_bv('name_%d' % i, 32); M.assume(z3.Or([v == ids[n] for n in ALPHA])); sym[i] = (v, ids)
+            mapping['nm%d' % i] = (lambda v: (lambda orig: TC.ident_sym(v, orig)))(v)
+        lib = LC.subst_names(lib, mapping)
+        return M.call_fn(key, [Ref(Cell(VecV([Ref(Cell(lib))])))])
+    def on_path(M, pr):
+        part.paths += 1
+        if pr.inconclusive: part.inconc(pr.inconclusive); return
+        s = z3.Solver(); s.add(*pr.pc); part.nontrivial += 1
+        same = sym[0][0] == sym[1][0]
+        is_err = (pr.result.disc == 1) if not pr.panic else None
+        codes = _codes(M, pr.result) if is_err else []
+        # equal names must be diagnosed (by any code); look for an assignment consistent with the path where they are equal and the result is Ok
+        s.add(same if (pr.panic or not is_err) else z3.BoolVal(False))
+        t = time.time(); r = s.check(); part.solver_s += time.time() - t; part.queries += 1
+        if r == z3.sat:
+            m = s.model(); names = []
+            for i in range(K):
+                v, ids = sym[i]; val = m.eval(v, True).as_long(); names.append([n for n in ALPHA if ids[n].as_long() == val][0])
+            src = _decl_text(kinds, names); classes = '+'.join(sorted(CLASS[k] for k in kinds))
+            if pr.panic: part.add('C03/K4/panic/' + '+'.join(kinds), 'resolve_types panics: ' + pr.panic.msg[:60], {'source': src}, ('samename', (src,)))
+            else: part.add('C03/K4/same-name-not-diagnosed/%s' % '+'.join(sorted(kinds)), 'a %s and a %s declared with one name (%s) pass type resolution without any diagnostic' % (kinds[0], kinds[1], names[0]), {'kinds': list(kinds), 'source': src}, ('samename', (src,)))
+        if len(part.samples) < 1: part.samples.append({'kinds': list(kinds), 'result': 'Err%s' % codes if is_err else 'Ok'})
+    M.explore(entry, on_path)
+    part.queries += M.stats['smt']; part.encoded = set(M.encoded); part.models = set(M.models_used)
+    return part
+
+@replay_factory('samename')
+def _replay_samename(src):
+    def rp(ctx):
+        r = ctx.replay({'cmd': 'analyze', 'sources': [src]})
+        if 'panic' in r: return True, r
+        if 'parse_error' in r: return None, r
+        return bool(r.get('ok')), {'source': src, 'analyze_ok': r.get('ok'), 'codes': [d['code'] for d in r.get('diagnostics', [])]}
+    return rp
+
+@kernel('K4 resolve_types.same_name_diagnosed')
+def k4(ctx, kr):
+    global _CTX
+    _CTX = ctx
+    pairs = [('enum', 'fb'), ('struct', 'fb'), ('fb', 'enum'), ('enum', 'function'), ('enum', 'program'), ('fb', 'function'), ('fb', 'fb'), ('enum', 'struct'), ('simple', 'enum'), ('simple', 'fb')]
+    kr.bounds = 'pairs of declarations %s with names symbolic over a 2-letter alphabet, through the real stages::resolve_types (all four transforms)' % pairs
+    for part in par_map(_k4_job, [(p_,) for p_ in pairs]): merge_part(kr, part)
+    P = ctx.program()
+    kr.functions = fn_paths(P, getattr(kr, '_enc', set()))[:80]
+    kr.assumptions = ['petgraph toposort / Dfs by contract (deterministic order: the verdict does not depend on it, C06-K2)']
+    kr.exhaustive = True
+
+KERNELS = [k1, k3, k4]
